@@ -213,6 +213,9 @@ Proof.
   intros E; inversion E. eauto.
 Qed.
 
+Lemma as_bytes_imm' enc ml eok v r : as_bytes enc ml eok v = Ok r -> imm r = true.
+Proof. intros E. destruct (as_bytes_imm _ _ _ _ _ E) as [b ->]. reflexivity. Qed.
+
 Lemma map_res_forall {A B} (f : A -> res B) (P : B -> Prop) l rs :
   (forall x y, f x = Ok y -> P y) -> map_res f l = Ok rs -> Forall P rs.
 Proof.
@@ -235,13 +238,13 @@ Proof.
     destruct (map_res (as_bytes enc ml eok) l) as [rs| |] eqn:Em; try discriminate.
     intros E; inversion E; subst. cbn. apply forallb_forall.
     pose proof (map_res_forall _ (fun y => imm y = true) l rs
-                  (fun x y H => match as_bytes_imm _ _ _ _ _ H with ex_intro _ b Hb => eq_ind_r (fun y => imm y = true) eq_refl Hb end) Em) as HF.
+                  (fun x y H => as_bytes_imm' _ _ _ _ _ H) Em) as HF.
     rewrite Forall_forall in HF. exact HF.
   - destruct (elements v) as [l|]; [|discriminate].
     destruct (map_res (as_bytes enc ml eok) l) as [rs| |] eqn:Em; try discriminate.
     intros E; inversion E; subst. cbn. apply forallb_forall.
     pose proof (map_res_forall _ (fun y => imm y = true) l rs
-                  (fun x y H => match as_bytes_imm _ _ _ _ _ H with ex_intro _ b Hb => eq_ind_r (fun y => imm y = true) eq_refl Hb end) Em) as HF.
+                  (fun x y H => as_bytes_imm' _ _ _ _ _ H) Em) as HF.
     rewrite Forall_forall in HF. exact HF.
 Qed.
 
